@@ -145,12 +145,12 @@ def run(tier, seed):
     st = evidence.Stats()
     if tier == 'quick':
         plan_spec = [('A', True, 'full', 1), ('B', True, 'full', 3), ('C', True, 'full', 7), ('D1', True, 'message', 1),
-                     ('D2', True, 'message', 1), ('E', True, 'full', 1), ('E1', True, 'full', 1), ('F', True, 'message', 1),
+                     ('D2', True, 'message', 1), ('E', True, 'full', 1), ('E1', True, 'full', 1), ('E2', True, 'message', 1), ('F', True, 'message', 1),
                      ('G', True, 'full', 1)]
         second = False
     else:
-        plan_spec = [(a, s, 'full', 1) for a in ('A', 'B', 'C', 'D1', 'D2', 'E', 'E1', 'F', 'G') for s in (True, False)
-                     if not (s is False and a in ('A', 'D1', 'D2', 'E', 'E1', 'F', 'G'))]
+        plan_spec = [(a, s, 'full', 1) for a in ('A', 'B', 'C', 'D1', 'D2', 'E', 'E1', 'E2', 'F', 'G') for s in (True, False)
+                     if not (s is False and a in ('A', 'D1', 'D2', 'E', 'E1', 'E2', 'F', 'G'))]
         second = True
     all_tasks = []
     for arch, short, level, step in plan_spec:
@@ -201,7 +201,7 @@ def run(tier, seed):
     return evidence.finish(
         PID, tier, seed, st, t0,
         rule='for each transcript archetype (A minimal, B host-key probes incl. certificates, C group exchange, D1 fixed DH group, '
-             'D2 group exchange as probe kex, E/E1 SSH-1, F SSH-1.99, G client role): cooperative run, then every (connection, message, fault) '
+             'D2 group exchange as probe kex, E/E1 SSH-1, E2 version mismatch on every connection, F SSH-1.99, G client role): cooperative run, then every (connection, message, fault) '
              'of the menu (truncate+close / truncate+stall at byte offsets, reset, garbage, every length field x5 values, wrong type, '
              'debug x1..3, duplicate, extra lines, split at every offset, 1-byte segments, refuse/timeout at connect); '
              'thorough adds all pairs with a second message-level fault on a later connection; degenerate GEX groups; bind failures of a client audit; '
